@@ -25,6 +25,7 @@ META = {
 }
 
 QUICK_KINDS = [('rows', False, None), ('retry', 1, 'ReadTimeout'), ('retry', 2, 'Unavailable')]
+USE_KINDS = [('setks', None, None), ('rows', False, None)]
 FULL_KINDS = [('rows', False, None), ('rows', True, None), ('retry', 0, 'WriteTimeout'), ('retry', 1, 'ReadTimeout'),
               ('retry', 2, 'Unavailable')]
 
@@ -104,10 +105,10 @@ def histories(ctx):
         yield item
     # exhaustive small scope: all orderings of responses / timer fires / executor runs with up to 3 attempts in flight
     if ctx.tier == 'quick':
-        scopes = [(QUICK_KINDS, [100, 100], 12, False, 4000)]
+        scopes = [(QUICK_KINDS, [100, 100], 12, False, 4000), (USE_KINDS, [], 9, False, 4000)]
     else:
         scopes = [(FULL_KINDS, [100, 100], 10, False, 40000), (FULL_KINDS, [100], 11, True, 60000),
-                  (QUICK_KINDS + [('junk', None, None)], [0, 0], 12, False, 30000)]
+                  (QUICK_KINDS + [('junk', None, None)], [0, 0], 12, False, 30000), (USE_KINDS, [100], 9, False, 30000)]
     capped = False
     for kinds, specs, depth, np, budget in scopes:
         cfg = {'plan': [1, 2, 3], 'timeout': 1000, 'specs': specs, 'pools': {1: 'ok', 2: 'ok', 3: 'ok'}, 'now': 0}
